@@ -100,6 +100,26 @@ def feasible(cond, access_term, value):
     return True
 
 
+def _table_of(fn, cond):
+    """(table, key, guarded) when fn is `table[key]` (guarded by `key in
+    table` on the path) or `table.get(key)` (guarded by a not-None / truth
+    test of the looked-up value on the path); else None."""
+    if kind(fn) == 'sub':
+        table, key = fn[1], fn[2]
+        g = any(kind(c) == 'cmp' and c[1] == 'in' and pol and
+                c[3] == table and c[2] == key for c, pol in cond)
+        return table, key, g
+    if kind(fn) == 'call' and kind(fn[2]) == 'attr' and fn[2][2] == 'get' \
+            and len(fn[3]) == 1:
+        table, key = fn[2][1], fn[3][0]
+        g = any((c == fn and pol) or
+                (kind(c) == 'cmp' and c[2] == fn and c[3] == NONE and
+                 ((c[1] == 'is not') == pol))
+                for c, pol in cond)
+        return table, key, g
+    return None
+
+
 def run(ctx):
     prog = ctx.prog
     vocab, emits = property_vocab(ctx)
@@ -205,8 +225,8 @@ def run(ctx):
                     ctx.ob('C17.D1', gfi.qualname, 'getall:keyed-by-name',
                            ok, 'GetAll must key values by the property name',
                            nontrivial=False)
-                    if kind(e[3]) == 'call' and kind(e[3][2]) == 'sub':
-                        typed_getall = e[3][2][1]
+                    if kind(e[3]) == 'call' and _table_of(e[3][2], bp.cond):
+                        typed_getall = _table_of(e[3][2], bp.cond)[0]
             for a, outs in table.items():
                 want = a != 'write'
                 # include: some feasible path stores it (others may skip it
@@ -226,11 +246,8 @@ def run(ctx):
     typed_get = None
     for p in Interp(prog, exc_edges=False).run(gfi2):
         if p.outcome == 'return' and kind(p.value) == 'call' and \
-                kind(p.value[2]) == 'sub':
-            typed_get = p.value[2][1]
-            ok = any(kind(c) == 'cmp' and c[1] == 'in' and pol and
-                     c[3] == typed_get and c[2] == p.value[2][2]
-                     for c, pol in p.cond)
+                _table_of(p.value[2], p.cond):
+            typed_get, _key, ok = _table_of(p.value[2], p.cond)
             ctx.ob('C17.D3', gfi2.qualname, 'typed-under-membership', ok,
                    'Get must wrap the value with variantClassMap[sig] '
                    'exactly when sig is in the table')
